@@ -172,3 +172,22 @@ def replay_matrix(r):
     except Exception as e:
         return {"violation": True, "detail": "%s: %s" % (type(e).__name__, e)}
     return {"violation": bool(bad), "detail": "; ".join(bad)[:800]}
+
+
+def replay_random_state(r):
+    from vectorizers.transformers import CountFeatureCompressionTransformer
+    inp = r["inputs"]
+    seed = int(inp["random_state"])
+    rng = np.random.RandomState(12345)
+    # a matrix wide enough for the randomised range finder to matter (the counterexample's own matrix is embedded in it)
+    X = rng.poisson(1.0, size=(40, 30)).astype(np.float64) + 0.01
+    x0 = np.array(inp["X"], dtype=np.float64)
+    X[:x0.shape[0], :x0.shape[1]] += x0
+    try:
+        a = CountFeatureCompressionTransformer(n_components=3, n_iter=1, random_state=seed).fit_transform(sp.csr_matrix(X))
+        np.random.seed(999)       # two fits must agree whatever the state of the global generator
+        b = CountFeatureCompressionTransformer(n_components=3, n_iter=1, random_state=seed).fit_transform(sp.csr_matrix(X))
+    except Exception as e:
+        return {"violation": True, "detail": "%s: %s" % (type(e).__name__, e)}
+    bad = a.shape != b.shape or not np.allclose(a, b, rtol=1e-9, atol=1e-9)
+    return {"violation": bool(bad), "detail": "two fits with random_state=%d differ by %g" % (seed, float(np.max(np.abs(a - b))) if a.shape == b.shape else -1)}
